@@ -236,6 +236,15 @@ def rule_leaf(run):
                 guards_ok = True
     run.ob(guards_ok, "check_used_temporaries", file=mod.rel, line=chk.node.lineno, detail="read-guard",
            expected="both assertions executed for READ accesses of Temporary objects", found="ok" if guards_ok else "guard changed")
+    # ... and for ALL of them: no further condition may exempt a read (e.g. by a flag of the temporary)
+    from .c07 import guards as _guards
+    allowed = ["if access is AccessFlags.READ", "if isinstance(obj, Temporary)", "if access is AccessFlags.READ and isinstance(obj, Temporary)",
+               "if isinstance(obj, Temporary) and access is AccessFlags.READ", "if access.is_read()", "if access.is_read() and isinstance(obj, Temporary)"]
+    for k, a in enumerate(asserts):
+        g = _guards(chk.node, a, mod.parents)
+        extra = [x for x in g if not any(x == al for al in allowed)]
+        run.ob(not extra, "check_used_temporaries", file=mod.rel, line=a.lineno, detail=f"no-exemption#{k}",
+               expected="checked for every READ of every Temporary (no further condition)", found=str([str(x) for x in extra]) if extra else "ok")
 
     f = mod.func("ConvertInstance.detect_uninitialized_temporaries.<locals>.search_invalid_temporaries")
     loop, stmt_var, arms, else_body = _find_arms(f.node)
@@ -538,7 +547,58 @@ def rule_writeback(run):
     _roles.run_writeback_rule(run, "F-WRITEBACK")
 
 
-RULES = [rule_fdef, rule_leaf, rule_order, rule_state_check, rule_arms, rule_cleanup, rule_writeback]
+def rule_state_root(run):
+    run.begin(
+        "C08.state",
+        "a state's traversals all start at the state's WHOLE code (self._code), never at the block that happened to be "
+        "open last: per-state alias resolution, visit, visit_objects, update_transitions",
+        floor=4,
+    )
+    rp = run.idx.mod(REPR)
+    init = rp.func("_State.__init__")
+    # the root field: the one the first constructor parameter is stored in
+    p0 = init.node.args.args[1].arg
+    roots = [dotted(a.targets[0]) for a in walk_local(init.node) if isinstance(a, ast.Assign) and dotted(a.value) == p0 and (dotted(a.targets[0]) or "").startswith("self.")]
+    if len(roots) != 1:
+        raise AnalysisError("_State.__init__: root code field not recognised")
+    root = roots[0]
+    for meth in ("fix_alias", "visit", "visit_objects", "update_transitions", "code"):
+        f = rp.functions.get(f"_State.{meth}")
+        if f is None:
+            continue
+        recv = sorted({dotted(x) for x in ast.walk(f.node) if isinstance(x, ast.Attribute) and isinstance(x.value, ast.Name) and x.value.id == "self" and x.attr.startswith("_") and x.attr not in ("_state_id",)})
+        run.ob(recv == [root], f"_State.{meth}", file=rp.rel, line=f.node.lineno, detail="root", expected=f"operates on {root} only", found=str(recv))
+    run.end()
+
+
+def rule_refspec_reads(run):
+    run.begin(
+        "C08.refspec",
+        "index / offset / slice-bound objects inside a reference are READ, whatever the access to the referenced object is "
+        "(the index of an assignment target is read, not written), and are visited before the object itself",
+        floor=3,
+    )
+    rp = run.idx.mod(REPR)
+    f = rp.func("_visit_referenced_objects.<locals>.visit_single_object")
+    calls = [c for c in calls_in(f.node) if dotted(c.func) == "operation" and len(c.args) == 2]
+    n = 0
+    for c in calls:
+        a = dotted(c.args[0]) or ""
+        if a.startswith("ref."):
+            n += 1
+            run.ob(dotted(c.args[1]) == "AccessFlags.READ", "_visit_referenced_objects", file=rp.rel, line=c.lineno, detail=a, expected=f"operation({a}, AccessFlags.READ)", found=src(c))
+            st = rp.parents.enclosing_stmt(c)
+            ok = isinstance(st, ast.Assign) and dotted(st.targets[0]) == a
+            run.ob(ok, "_visit_referenced_objects", file=rp.rel, line=c.lineno, detail=a + ".writeback", expected=f"{a} = operation({a}, ..)", found=src(st)[:80])
+    if n < 3:
+        raise AnalysisError("_visit_referenced_objects: ref-spec operands not recognised")
+    last = f.node.body[-1]
+    ok = isinstance(last, ast.Return) and src(last.value) == f"operation({f.node.args.args[0].arg}, {f.node.args.args[1].arg})"
+    run.ob(ok, "_visit_referenced_objects", file=rp.rel, line=last.lineno, detail="object-itself", expected="return operation(obj, access) with the caller's flag", found=src(last)[:80])
+    run.end()
+
+
+RULES = [rule_fdef, rule_leaf, rule_order, rule_state_check, rule_arms, rule_cleanup, rule_writeback, rule_state_root, rule_refspec_reads]
 
 LEVEL = "other"
 EXPLANATION = (
